@@ -142,6 +142,7 @@ def check(prop, tier, seed):
     if os.environ.get("VERIF_RUNS"):
         total = int(os.environ["VERIF_RUNS"])
     budget = cfg["quick_budget"] if tier == "quick" else cfg["thorough_budget"]
+    budget = int(os.environ.get("VERIF_BUDGET", budget))  # seconds; for trying a tier out under a shorter wall-clock budget
     outcomes, all_stats = orch.RunSet(), []
     batches = 1 if tier == "quick" else cfg.get("thorough_batches", 6)
     n_new = n_known = 0
